@@ -11,6 +11,7 @@ from __future__ import annotations
 import ast
 import collections
 
+from sa.astutil import params_of
 from sa.flow import walk_shallow
 from sa.gen import sign_name
 from sa.gencheck import MUTATING_METHODS
@@ -119,6 +120,9 @@ def run(ctx):
     from .c03 import _licensed_operations
     _licensed_operations(ctx, rows, 'C10.R5')
 
+    # ---- R6 ----------------------------------------------------------------------
+    _own_instance_hooks_read_only(ctx)
+
     # ---- R3 ----------------------------------------------------------------------
     ctx.rule('C10.R3', 'mapping values are read through a key obtained from the mapping itself '
              '(x[next(iter(x))] / next(iter(x.values()))): no lookup with a fresh key that could insert into a '
@@ -136,3 +140,81 @@ def run(ctx):
         ctx.ob('C10.R3', f'mapping-key:{p}', CODEMAIN, f'{n_} shapes rooted at {p} read values through an existing key',
                why is None, why or '')
     ctx.floor('C10.R3', sum(n_ for n_, _ in g.values()), 100, 'mapping shape evaluations')
+
+
+#: callables a subject may be handed to without being followed: they read the type, an attribute or the identity
+_READ_ONLY_SINKS = {'isinstance', 'issubclass', 'type', 'getattr', 'hasattr', 'callable', 'id', 'repr', 'is_bearable',
+                    'is_object_hashable'}
+
+
+def _subject_uses(repo, m, fn, subject, depth, seen):
+    """(node, module, what) for each operation on the subject parameter in fn — and in the repository functions it is handed to
+    (depth-bounded) — that can change or consume it: a method call on it, next()/iteration over it, a store through it."""
+    tainted = {subject}
+    for a in walk_shallow(fn):
+        if isinstance(a, ast.Assign) and len(a.targets) == 1 and isinstance(a.targets[0], ast.Name) \
+                and isinstance(a.value, ast.Name) and a.value.id in tainted:
+            tainted.add(a.targets[0].id)
+
+    def is_t(e):
+        return isinstance(e, ast.Name) and e.id in tainted
+    for x in walk_shallow(fn):
+        if isinstance(x, ast.Call):
+            f = x.func
+            if isinstance(f, ast.Attribute) and is_t(f.value):
+                yield x, m, f'calls the method `.{f.attr}()` of the checked object'
+                continue
+            args = list(x.args) + [k.value for k in x.keywords]
+            if not any(is_t(a) for a in args):
+                continue
+            nm = norm(f)
+            if nm in ('next', 'iter', 'list', 'tuple', 'set', 'sorted', 'sum', 'any', 'all', 'enumerate', 'zip', 'setattr', 'delattr'):
+                yield x, m, f'`{nm}()` iterates, consumes or stores through the checked object'
+                continue
+            if nm.rsplit('.', 1)[-1] in _READ_ONLY_SINKS or (isinstance(f, ast.Attribute) and f.attr in ('__instancecheck__', '__subclasscheck__')):
+                continue
+            ref = repo.resolve_expr(m, f)
+            if ref.kind == 'def' and ref.node is not None and depth > 0 and ref.module in repo.modules:
+                key = (ref.module, ref.name)
+                if key in seen:
+                    continue
+                seen.add(key)
+                callee = ref.node
+                ps = params_of(callee)
+                for i, a in enumerate(x.args):
+                    if is_t(a) and i < len(ps):
+                        yield from _subject_uses(repo, repo.modules[ref.module], callee, ps[i], depth - 1, seen)
+                for k in x.keywords:
+                    if is_t(k.value) and k.arg in ps:
+                        yield from _subject_uses(repo, repo.modules[ref.module], callee, k.arg, depth - 1, seen)
+        elif isinstance(x, (ast.For, ast.AsyncFor, ast.comprehension)) and is_t(x.iter):
+            yield x if not isinstance(x, ast.comprehension) else x.iter, m, 'iterates over the checked object'
+        elif isinstance(x, (ast.Assign, ast.AugAssign, ast.Delete)):
+            tg = x.targets if not isinstance(x, ast.AugAssign) else [x.target]
+            for t in tg:
+                if isinstance(t, (ast.Attribute, ast.Subscript)) and is_t(t.value):
+                    yield x, m, 'stores through the checked object'
+
+
+def _own_instance_hooks_read_only(ctx):
+    """R6: isinstance() in generated code may land in a metaclass hook that beartype itself defines (the IO pseudo-protocols,
+    the caching protocol, the forward-reference proxies); those hooks are part of the check and must be as read-only as it."""
+    repo = ctx.repo
+    ctx.rule('C10.R6', 'every __instancecheck__ beartype itself defines (outside the test suite) — and every repository function the '
+             'checked object is handed to from there, three calls deep — only reads the type, the identity and attributes of '
+             'the checked object: it calls no method of it, never iterates or next()s it, and stores nothing through it '
+             '(a stream\'s read(0), a generator\'s send() or a lazily computed property setter would make the check observable)')
+    n = 0
+    for m, fn in repo.iter_functions():
+        if fn.name != '__instancecheck__' or not isinstance(parent(fn), ast.ClassDef):
+            continue
+        ps = params_of(fn)
+        if len(ps) < 2:
+            continue
+        n += 1
+        uses = list(_subject_uses(repo, m, fn, ps[1], 3, set()))
+        x = uses[0] if uses else None
+        ctx.ob('C10.R6', f'instance-hook:{m.name.rsplit(".", 1)[-1]}.{parent(fn).name}:read-only',
+               (x[1].where(x[0]) if x else m.where(fn)), 'the instance-check hook only reads its subject', not uses,
+               '; '.join(f'{u[1].where(u[0])}: {u[2]}' for u in uses[:3]))
+    ctx.floor('C10.R6', n, 5, "__instancecheck__ hooks of beartype's own metaclasses")
